@@ -9,6 +9,7 @@ import (
 	"iter"
 	"os"
 	"path/filepath"
+	"slices"
 	"sort"
 	"strings"
 
@@ -253,6 +254,7 @@ type c18Kmer struct {
 func errLastFormat(format string) bool { return format != "sam" && format != "samh" }
 
 func runC18(r *core.Run) {
+	racePass(r, "race-formats", "all five codecs: readers each on their own stream (whole and in 7-byte reads, every corpus file), Write on shared records into separate destinations, File on one shared path; every result is compared with what the same call returned when it ran alone")
 	L := core.Pick(r, 5, 7)
 	r.Bound("readers", fmt.Sprintf("Reader of FASTA, FASTQ, SAM, SAM ReaderHeader, BED, Newick x (every input over the format's token alphabet up to length %d + every small, medium and placeholder-token corpus file, incl. malformed ones so that stops fall on error items and between the several error items of a SAM file) x every stop position 1..N x {direct call, range+break}", L))
 	core.Clause(r, "readers", core.Opts{Rule: "every stop position of every iterator run, both call forms; exactly t callbacks, no panic, items == the first t of the uninterrupted run; for FASTA/FASTQ/BED/Newick an error item is last; non-trivial = uninterrupted run has at least 2 items"},
@@ -467,6 +469,88 @@ func runC18(r *core.Run) {
 			}
 			defer os.Remove(path)
 			return checkStops(fmt.Sprintf("%s.File(%s)", c.Format, name), fileStop(c.Format, path), false, errLastFormat(c.Format))
+		})
+
+	// A path that cannot be opened (or whose gzip stream is broken from the first byte, or breaks later)
+	// makes File yield an error item; the run around that item must be as clean as any other.
+	type c18Unopenable struct {
+		Format string `json:"format"`
+		Kind   string `json:"kind"`
+	}
+	unopenable := []string{"missing", "missing.gz", "directory", "directory.gz", "gz-that-is-plain-text", "gz-of-0-bytes", "gz-header-only", "gz-cut-in-the-middle", "gz-with-a-wrong-checksum", "no-read-permission"}
+	core.Clause(r, "files-that-cannot-be-opened", core.Opts{Rule: "File (and SAM FileHeader) of every format on a path that does not exist, is a directory, is a .gz that is not gzip / is empty / ends after its header / is cut in the middle / has a wrong checksum, or may not be read: the uninterrupted run does not panic, ends, holds at least one error item (the last one for the formats that stop at an error), and every stop position in both forms is clean; non-trivial = all"},
+		func(emit func(c18Unopenable) bool) {
+			for _, f := range formats {
+				for _, k := range unopenable {
+					if !emit(c18Unopenable{f.Name, k}) {
+						return
+					}
+				}
+			}
+		},
+		func(c c18Unopenable) core.Outcome {
+			dir := filepath.Join(scratch, fmt.Sprintf("unopenable-%s-%s", c.Format, c.Kind))
+			os.MkdirAll(dir, 0o755)
+			defer os.RemoveAll(dir)
+			var zb bytes.Buffer
+			zw := gzip.NewWriter(&zb)
+			zw.Write(corpus(c.Format, "medium")[0])
+			zw.Close()
+			z := zb.Bytes()
+			path := filepath.Join(dir, "f.txt")
+			var content []byte
+			switch c.Kind {
+			case "missing":
+			case "missing.gz":
+				path += ".gz"
+			case "directory":
+				os.Mkdir(path, 0o755)
+			case "directory.gz":
+				path += ".gz"
+				os.Mkdir(path, 0o755)
+			case "gz-that-is-plain-text":
+				path, content = path+".gz", corpus(c.Format, "medium")[0]
+			case "gz-of-0-bytes":
+				path, content = path+".gz", []byte{}
+			case "gz-header-only":
+				path, content = path+".gz", z[:10]
+			case "gz-cut-in-the-middle":
+				path, content = path+".gz", z[:len(z)/2]
+			case "gz-with-a-wrong-checksum":
+				bad := bytes.Clone(z)
+				bad[len(bad)-8] ^= 0x55
+				path, content = path+".gz", bad
+			case "no-read-permission":
+				content = corpus(c.Format, "medium")[0]
+			}
+			if content != nil {
+				mode := os.FileMode(0o644)
+				if c.Kind == "no-read-permission" {
+					mode = 0o000
+				}
+				if err := os.WriteFile(path, content, mode); err != nil {
+					return core.Outcome{Skip: true}
+				}
+				if c.Kind == "no-read-permission" {
+					if f, err := os.Open(path); err == nil { // running as root: the mode bits do not bind
+						f.Close()
+						return core.Outcome{Skip: true}
+					}
+				}
+			}
+			what := fmt.Sprintf("%s.File(%s)", c.Format, c.Kind)
+			full, _, p := fileStop(c.Format, path)(0, false)
+			if p != "" {
+				return core.Failf("%s: uninterrupted run panicked: %s", what, p)
+			}
+			if !slices.Contains(full, "ERR") {
+				return core.Failf("%s: the run holds no error item: %s", what, trunc(fmt.Sprint(full), 300))
+			}
+			out := checkStops(what, fileStop(c.Format, path), false, errLastFormat(c.Format))
+			if out.Fail == "" {
+				out.Class, out.Nontrivial = c.Kind, true
+			}
+			return out
 		})
 
 	NT := core.Pick(r, 6, 10)
